@@ -272,6 +272,12 @@ static bool chpen(TickitTermDriver *ttd, const TickitPen *delta, const TickitPen
         params[pindex++] = onoff->off;
       else if(val == 1)
         params[pindex++] = onoff->on;
+      else if(!xd->cap.csi_sub_colon)
+        /* Without colon sub-parameters "4;2" would mean underline + faint.
+         * Double underline has an SGR code of its own; other styles fall
+         * back to a single underline
+         */
+        params[pindex++] = (val == TICKIT_PEN_UNDER_DOUBLE) ? 21 : onoff->on;
       else {
         params[pindex++] = onoff->on | CSI_MORE_SUBPARAM;
         params[pindex++] = val;
